@@ -208,7 +208,11 @@ def create_dataset(
     for apid, data in data_dict.items():
         ds = xr.Dataset(
             data_vars={
-                key: (["packet"], np.asarray(list_of_values, dtype=datatype_mapping[apid][key]))
+                key: (["packet"], np.asarray(
+                    # numpy does not size a bytes column correctly from instances of bytes subclasses
+                    # (values longer than 4 bytes are truncated), so hand it plain bytes objects
+                    [bytes(v) for v in list_of_values] if datatype_mapping[apid][key] == "bytes" else list_of_values,
+                    dtype=datatype_mapping[apid][key]))
                 for key, list_of_values in data.items()
             }
         )
